@@ -28,6 +28,8 @@ VARIABLES l,
           hcfg,     \* reset line of the current history
           called,   \* impl: Stop calls that have been issued
           cancLog,  \* impl: Stop calls whose sv.stop.cancel has been logged (the hook follows cancel(), outside any lock)
+          aux,      \* impl: [slow: connections whose outstanding request will be seen in the backend (be.enter follows),
+                    \*        bex: connections whose request has left the backend gate (be.exit logged) and is not answered yet]
           outst,    \* impl: connections with a request sent and not yet served
           outres,   \* impl: those of them whose request allocates a handle / fills a cache (LOOKUP)
           answ,     \* impl: connections with a request served whose reply the client has not logged yet
@@ -35,7 +37,7 @@ VARIABLES l,
           o,        \* ideal: observed state
           bad, dev, drift, stats
 
-tvars == <<l, hcfg, called, cancLog, outst, outres, answ, reaping, o, bad, dev, drift, stats>>
+tvars == <<l, hcfg, called, cancLog, aux, outst, outres, answ, reaping, o, bad, dev, drift, stats>>
 allvars == <<vars, tvars>>
 
 Cur == TraceLog[l]
@@ -47,8 +49,13 @@ Bump(k) == [stats EXCEPT ![k] = @ + 1]
 ObsInit == [act |-> {},        \* registered according to the hook events
             ever |-> {},       \* ever counted
             served |-> {},     \* connections for which a client holds proof of being served right now
+            inbe |-> {},       \* connections with a request inside the backend right now (seen by the backend gate)
             stopped |-> FALSE, \* a Stop (or a Close / Unexport of an exported handler) has returned successfully
             late |-> {}]       \* connections on which a request was sent after that
+
+\* (with a short IdleTimeout in play the observation depends on real time: it must reproduce before it counts)
+TooMany == (IF hcfg.idle_ms < 300000 THEN "[timed] " ELSE "") \o
+           "more connections were served simultaneously (answered, or with a request executing) than MaxConnections"
 
 IdealStep ==
   LET e == Cur
@@ -84,13 +91,21 @@ IdealStep ==
          /\ UNCHANGED <<bad, dev, drift, stats>>
     [] e.ev = "cl.reply" ->
          LET s2 == IF e.first THEN o.served \cup {e.c} ELSE o.served
-             w == (IF e.first /\ mx > 0 /\ Cardinality(s2) > mx
-                   THEN {"more connections were served simultaneously than MaxConnections"} ELSE {})
+             w == (IF e.first /\ mx > 0 /\ Cardinality(s2 \cup o.inbe) > mx
+                   THEN {TooMany} ELSE {})
                   \cup (IF e.c \in o.late THEN {"a request sent after Stop had returned was served"} ELSE {})
          IN /\ o' = [o EXCEPT !.served = s2]
             /\ bad' = bad \cup Tag(w)
             /\ stats' = Bump("replies")
             /\ UNCHANGED <<dev, drift>>
+    \* a request of the connection is executing in the backend: the connection is being served
+    [] e.ev = "be.enter" ->
+         /\ o' = [o EXCEPT !.inbe = @ \cup {e.c}]
+         /\ bad' = bad \cup Tag(IF mx > 0 /\ Cardinality(o.served \cup o.inbe \cup {e.c}) > mx THEN {TooMany} ELSE {})
+         /\ UNCHANGED <<dev, drift, stats>>
+    [] e.ev = "be.exit" ->
+         /\ o' = [o EXCEPT !.inbe = @ \ {e.c}]
+         /\ UNCHANGED <<bad, dev, drift, stats>>
     [] e.ev = "cl.probe" ->
          /\ bad' = bad \cup Tag(IF e.served /\ o.stopped THEN {"a connection was still served after Stop had returned"} ELSE {})
          /\ UNCHANGED <<o, dev, drift, stats>>
@@ -140,14 +155,14 @@ IdealStep ==
 ImplReset ==
   /\ lst' = "none" /\ ctxDone' = FALSE /\ acc' = "none" /\ accHas' = {} /\ idleG' = FALSE /\ reap' = {}
   /\ active' = {} /\ count' = 0
-  /\ conn' = [c \in Conns |-> [ph |-> "none", sock |-> "none", peer |-> "open", age |-> 0, gor |-> FALSE]]
+  /\ conn' = [c \in Conns |-> [ph |-> "none", sock |-> "none", peer |-> "open", age |-> 0, gor |-> FALSE, busy |-> FALSE, dur |-> 0, reaped |-> FALSE]]
   /\ stop' = [k \in Stops |-> [ph |-> "idle", snap |-> {}]]
-  /\ nfs' = [j \in Nfs |-> [ph |-> "idle"]]
+  /\ nfs' = [j \in Nfs |-> [ph |-> "idle", api |-> "close"]]
   /\ exportSrv' = Cur.exported
   /\ handles' = FALSE /\ caches' = FALSE
   /\ regN' = [c \in Conns |-> 0] /\ unregN' = [c \in Conns |-> 0]
 
-Unchanged4 == UNCHANGED <<called, cancLog, outst, outres, answ, reaping>>
+Unchanged4 == UNCHANGED <<called, cancLog, aux, outst, outres, answ, reaping>>
 
 MinOf(S) == CHOOSE x \in S : \A y \in S : x <= y
 ByStop(c) == {k \in Stops : stop[k].ph = "closing" /\ c \in stop[k].snap}
@@ -174,7 +189,7 @@ ImplEvent ==
                              /\ Unchanged4
     [] e.ev = "cl.start" -> conn[e.c].gor /\ UNCHANGED vars /\ Unchanged4
     [] e.ev = "cm.reap" -> /\ e.c \in reap /\ reaping' = reaping \cup {e.c}
-                           /\ UNCHANGED <<vars, called, cancLog, outst, outres, answ>>
+                           /\ UNCHANGED <<vars, called, cancLog, aux, outst, outres, answ>>
     \* who uncounted it: the cleanup pass that announced it, else the closeAllConnections whose snapshot holds it,
     \* else its own goroutine (when several could have, the later silent steps of the others find nothing to do,
     \* so one canonical choice loses no behaviour)
@@ -182,26 +197,33 @@ ImplEvent ==
                             /\ IF e.c \in reaping THEN ReapClose(e.c) /\ reaping' = reaping \ {e.c}
                                ELSE IF ByStop(e.c) # {} THEN StopCloseOne(MinOf(ByStop(e.c)), e.c) /\ reaping' = reaping
                                ELSE ConnExit(e.c) /\ reaping' = reaping
-                            /\ UNCHANGED <<called, cancLog, outst, outres, answ>>
+                            /\ UNCHANGED <<called, cancLog, aux, outst, outres, answ>>
     [] e.ev = "cl.send" -> /\ outst' = outst \cup {e.c}
                            /\ outres' = IF e.res THEN outres \cup {e.c} ELSE outres
+                           /\ aux' = IF e.slow THEN [aux EXCEPT !.slow = @ \cup {e.c}] ELSE aux
                            /\ UNCHANGED <<vars, called, cancLog, answ, reaping>>
-    [] e.ev = "cl.reply" -> e.c \in answ /\ answ' = answ \ {e.c} /\ UNCHANGED <<vars, called, cancLog, outst, outres, reaping>>
-    [] e.ev = "cl.dead" -> outst' = outst \ {e.c} /\ outres' = outres \ {e.c} /\ UNCHANGED <<vars, called, cancLog, answ, reaping>>
+    [] e.ev = "be.enter" -> /\ e.c \in outst /\ e.c \in aux.slow /\ ServeBeginAny(e.c)
+                            /\ outst' = outst \ {e.c} /\ aux' = [aux EXCEPT !.slow = @ \ {e.c}]
+                            /\ UNCHANGED <<called, cancLog, outres, answ, reaping>>
+    [] e.ev = "be.exit" -> /\ conn[e.c].busy /\ aux' = [aux EXCEPT !.bex = @ \cup {e.c}]
+                           /\ UNCHANGED <<vars, called, cancLog, outst, outres, answ, reaping>>
+    [] e.ev = "cl.reply" -> e.c \in answ /\ answ' = answ \ {e.c} /\ UNCHANGED <<vars, called, cancLog, aux, outst, outres, reaping>>
+    [] e.ev = "cl.dead" -> /\ outst' = outst \ {e.c} /\ outres' = outres \ {e.c} /\ aux' = [aux EXCEPT !.slow = @ \ {e.c}]
+                           /\ UNCHANGED <<vars, called, cancLog, answ, reaping>>
     [] e.ev = "cl.close" -> /\ IF conn[e.c].ph \in {"dialed", "taken", "serving"} /\ conn[e.c].peer = "open"
                                THEN PeerClose(e.c) ELSE UNCHANGED vars
                             /\ Unchanged4
-    [] e.ev = "st.call" -> called' = called \cup {e.k} /\ UNCHANGED <<vars, cancLog, outst, outres, answ, reaping>>
+    [] e.ev = "st.call" -> called' = called \cup {e.k} /\ UNCHANGED <<vars, cancLog, aux, outst, outres, answ, reaping>>
     \* the hook follows s.cancel() outside any lock: connections may already have left by the time it is logged
     [] e.ev = "sv.stop.cancel" -> /\ \E k \in called \ cancLog : stop[k].ph # "idle" /\ cancLog' = cancLog \cup {k}
-                                  /\ UNCHANGED <<vars, called, outst, outres, answ, reaping>>
+                                  /\ UNCHANGED <<vars, called, aux, outst, outres, answ, reaping>>
     [] e.ev = "sv.stop.closed" -> (\E k \in called : StopWait(k)) /\ Unchanged4
     [] e.ev = "sv.stop.returned" -> e.ok /\ (\E k \in called : StopReturn(k)) /\ Unchanged4
     [] e.ev = "st.ret" -> e.ok /\ stop[e.k].ph = "returned" /\ UNCHANGED vars /\ Unchanged4
     [] e.ev = "local.use" -> /\ handles' = TRUE /\ caches' = TRUE
                              /\ UNCHANGED <<lst, ctxDone, acc, accHas, idleG, reap, active, count, conn, stop, nfs, exportSrv, regN, unregN>>
                              /\ Unchanged4
-    [] e.ev = "cx.call" -> NfsBegin(e.j) /\ Unchanged4
+    [] e.ev = "cx.call" -> NfsBegin(e.j, e.api) /\ Unchanged4
     [] e.ev = "cx.ret" -> /\ nfs[e.j].ph = "returned"
                           /\ (e.handles > 0) = handles /\ (e.attr > 0 \/ e.dir > 0) = caches
                           /\ ~e.panic
@@ -222,10 +244,11 @@ NextAcc == LET hi == IF N < l + 300 THEN N ELSE l + 300     \* a history is shor
            ELSE LET k == CHOOSE x \in S : \A y \in S : x <= y IN
                 IF TraceLog[k].ev = "reset" THEN 0 ELSE TraceLog[k].c
 
-CanServe(c) == conn[c].ph = "serving" /\ conn[c].gor /\ conn[c].sock = "open" /\ conn[c].peer = "open"
+CanServe(c) == c \notin aux.slow /\ CanRead(c) /\ ClientsMaySend
+CanEnd(c) == c \in aux.bex /\ conn[c].busy
 CanTake == NextAcc # 0 /\ acc = "accepting" /\ lst = "open" /\ conn[NextAcc].ph = "dialed"
 CanCollect(k) == k \in called /\ stop[k].ph = "lclosed"
-EagerEnabled == acc = "top" \/ CanTake \/ (\E k \in Stops : CanCollect(k)) \/ \E c \in outst : CanServe(c)
+EagerEnabled == acc = "top" \/ CanTake \/ (\E k \in Stops : CanCollect(k)) \/ (\E c \in Conns : CanEnd(c)) \/ \E c \in outst : CanServe(c)
 
 \* (Accept returning early and an early snapshot of closeAllConnections lose no behaviour: a connection taken
 \* early only waits for its cm.accept / cm.reject, and every connection of a later snapshot that an earlier one
@@ -235,12 +258,17 @@ Eager ==
   ELSE IF CanTake THEN AccTake(NextAcc) /\ UNCHANGED tvars
   ELSE IF \E k \in Stops : CanCollect(k)
        THEN (LET k == CHOOSE x \in Stops : CanCollect(x) IN StopCollect(k)) /\ UNCHANGED tvars
+  ELSE IF \E c \in Conns : CanEnd(c)
+       THEN LET c == CHOOSE x \in Conns : CanEnd(x) IN       \* the request that left the backend gate is answered
+            /\ ServeEnd(c)
+            /\ aux' = [aux EXCEPT !.bex = @ \ {c}] /\ answ' = answ \cup {c}
+            /\ UNCHANGED <<l, hcfg, called, cancLog, outst, outres, reaping, o, bad, dev, drift, stats>>
   ELSE LET c == CHOOSE x \in outst : CanServe(x) /\ \A y \in outst : CanServe(y) => x <= y IN
-       /\ Serve(c)
+       /\ ServeFast(c)
        /\ (c \in outres) => (handles' = TRUE)      \* a LOOKUP allocates a handle and caches attributes, a NULL does not
        /\ (c \notin outres) => (handles' = handles /\ caches' = caches)
        /\ outst' = outst \ {c} /\ outres' = outres \ {c} /\ answ' = answ \cup {c}
-       /\ UNCHANGED <<l, hcfg, called, cancLog, reaping, o, bad, dev, drift, stats>>
+       /\ UNCHANGED <<l, hcfg, called, cancLog, aux, reaping, o, bad, dev, drift, stats>>
 
 \* the cleanup pass collects the connection whose cm.reap comes next (a subset of what ReapPick may collect)
 ReapPickOne(c) ==
@@ -250,7 +278,7 @@ ReapPickOne(c) ==
 
 \* connections that still have a silent step to take before Stop can return / before closeAllConnections is done;
 \* they are processed in increasing order (the steps of different connections commute)
-NeedsExit(c) == \/ (conn[c].ph = "serving" /\ conn[c].gor /\ (ctxDone \/ conn[c].sock = "closed" \/ conn[c].peer = "closed"))
+NeedsExit(c) == \/ (conn[c].ph = "serving" /\ conn[c].gor /\ ~conn[c].busy /\ (ctxDone \/ conn[c].sock = "closed" \/ conn[c].peer = "closed"))
                 \/ (c \notin active /\ (conn[c].ph = "exiting" \/ c \in reap))
 Leftover(k) == {c \in stop[k].snap : c \notin active}
 
@@ -265,7 +293,7 @@ Lazy ==
              /\ LET c == MinOf({x \in Conns : NeedsExit(x)}) IN
                 ConnNotice(c) \/ (c \notin active /\ (ConnExit(c) \/ (c \in reap /\ ReapClose(c))))
           \/ IdleExit
-     \/ e.ev = "cx.ret" /\ (NfsStopped(e.j) \/ NfsRelease(e.j) \/ NfsClear(e.j))
+     \/ e.ev = "cx.ret" /\ (NfsStopped(e.j) \/ NfsPoolStop(e.j) \/ NfsRelease(e.j) \/ NfsClear(e.j))
   /\ UNCHANGED tvars
 
 Search ==
@@ -277,7 +305,7 @@ Silent == IF EagerEnabled THEN Eager ELSE (Lazy \/ Search)
 -----------------------------------------------------------------------------
 TInit == /\ Init
          /\ l = 1 /\ hcfg = [hist |-> -1, max |-> 0, idle_ms |-> 0, exported |-> FALSE]
-         /\ called = {} /\ cancLog = {} /\ outst = {} /\ outres = {} /\ answ = {} /\ reaping = {}
+         /\ called = {} /\ cancLog = {} /\ aux = [slow |-> {}, bex |-> {}] /\ outst = {} /\ outres = {} /\ answ = {} /\ reaping = {}
          /\ o = ObsInit /\ bad = {} /\ dev = {} /\ drift = {}
          /\ stats = [lines |-> 0, hist |-> 0, accepts |-> 0, rejects |-> 0, unregs |-> 0, reaps |-> 0, replies |-> 0,
                      stops |-> 0, closes |-> 0, censuses |-> 0, idlechecks |-> 0]
@@ -289,12 +317,12 @@ IdealNext ==
      /\ IF Cur.ev = "reset"
         THEN /\ hcfg' = Cur /\ o' = ObsInit /\ stats' = Bump("hist") /\ UNCHANGED <<bad, dev, drift>>
         ELSE IdealStep /\ hcfg' = hcfg
-     /\ UNCHANGED <<vars, called, cancLog, outst, outres, answ, reaping>>
+     /\ UNCHANGED <<vars, called, cancLog, aux, outst, outres, answ, reaping>>
   \/ /\ l = N + 1
      /\ l' = N + 2
      /\ JsonSerialize(IOEnv.VF_RESULT, [n |-> N, consumed |-> l - 1, bad |-> bad, dev |-> dev, drift |-> drift,
                                         stats |-> [stats EXCEPT !.lines = N]])
-     /\ UNCHANGED <<vars, hcfg, called, cancLog, outst, outres, answ, reaping, o, bad, dev, drift, stats>>
+     /\ UNCHANGED <<vars, hcfg, called, cancLog, aux, outst, outres, answ, reaping, o, bad, dev, drift, stats>>
 
 ImplNext ==
   /\ l <= N
@@ -302,7 +330,7 @@ ImplNext ==
      \/ /\ l' = l + 1
         /\ UNCHANGED <<o, bad, dev, drift, stats>>
         /\ IF Cur.ev = "reset"
-           THEN ImplReset /\ hcfg' = Cur /\ called' = {} /\ cancLog' = {} /\ outst' = {} /\ outres' = {} /\ answ' = {} /\ reaping' = {}
+           THEN ImplReset /\ hcfg' = Cur /\ called' = {} /\ cancLog' = {} /\ aux' = [slow |-> {}, bex |-> {}] /\ outst' = {} /\ outres' = {} /\ answ' = {} /\ reaping' = {}
            ELSE ImplEvent /\ hcfg' = hcfg
 
 TNext == IF Mode = "ideal" THEN IdealNext ELSE ImplNext
